@@ -306,3 +306,32 @@ class Machine:
 
     def extra_evidence(self, tier: str) -> dict:
         return {}
+
+
+def replay_isolated(machine: Machine, case: dict, known: list[list[str]]) -> RunResult:
+    """machine.replay, in a pristine forked child when the machine asks for per-run isolation."""
+    if not getattr(machine, "isolate_runs", False):
+        return machine.replay(case, known)
+    import os
+    import pickle
+
+    r, w = os.pipe()
+    pid = os.fork()
+    if pid == 0:
+        code = 0
+        try:
+            os.close(r)
+            res = machine.replay(case, known)
+            with os.fdopen(w, "wb") as f:
+                pickle.dump(res, f)
+        except BaseException:  # noqa: BLE001
+            code = 3
+        finally:
+            os._exit(code)
+    os.close(w)
+    with os.fdopen(r, "rb") as f:
+        data = f.read()
+    _, status = os.waitpid(pid, 0)
+    if os.waitstatus_to_exitcode(status) != 0 or not data:
+        raise HarnessError("isolated replay child failed")
+    return pickle.loads(data)  # noqa: S301
